@@ -12,6 +12,7 @@ import numpy as np
 
 from EasyFEA.FEM import Det, FeArray, Field, Inv, Norm, TensorProd, Trace, Transpose
 
+from . import _suite
 from ..core import Ctx, quiet, relerr
 
 PROP = "C12"
@@ -62,6 +63,9 @@ def cases(tier: str, seed: int) -> list[dict]:
     for i, c in enumerate(out):
         c["id"] = f"C12-{i:05d}-{c['sc']}-{c.get('shape', c.get('et', ''))}"
         c["index"] = i
+    for c in _suite.suite_cases(PROP, tier):
+        c["index"] = len(out)
+        out.append(c)
     return out
 
 
@@ -113,6 +117,8 @@ KINDS = [("field", "field"), ("field", "const"), ("const", "field")]
 
 
 def run_case(case: dict, ctx: Ctx) -> None:
+    if case.get("fam") == "suite":
+        return _suite.run_suite(case, ctx, PROP)
     rng = np.random.default_rng([case["seed"], NUM, case["index"]])
     {"binary": run_binary, "products": run_products, "unary": run_unary, "numpy": run_numpy, "trees": run_trees, "broadcast": run_broadcast,
      "fieldobj": run_fieldobj, "extents": run_extents}[case["sc"]](case, ctx, rng)
